@@ -125,6 +125,18 @@ MODULE_EXT = re.compile(r"\.(mod|xm|it|s3m|stm|mtm|669|far|ult|okt|med|mmd[0-3]|
                         r"stk|m15|flx|dt|dtm|rtm|mgt|arch|sym|emod|ice|st26|j2b|umx|abk|hmn|chn|stim|coco|gmc|fnk|nt|xmf|masi|mus|c67)$", re.I)
 
 
+def openmpt_files():
+    """the behaviour-test modules of test-dev/openmpt (sample swaps, filters, envelopes, ...)"""
+    base = os.path.join(vlib.REPO, "test-dev", "openmpt")
+    out = []
+    for root, dirs, files in os.walk(base):
+        dirs.sort()
+        for f in sorted(files):
+            if MODULE_EXT.search(f):
+                out.append(os.path.join(root, f))
+    return out
+
+
 def pick_modules(ck, n):
     # test-dev/data/f holds malformed files (loader regression inputs): they mostly fail to load
     files = [f for f in vlib.corpus_files() if os.path.getsize(f) < 300000 and MODULE_EXT.search(f) and "/data/f/" not in f]
@@ -133,8 +145,11 @@ def pick_modules(ck, n):
             os.path.join(vlib.REPO, "test", "test.xm"), os.path.join(vlib.REPO, "test", "test.it")]
     must = [f for f in must if os.path.exists(f)]
     rest = [f for f in files if f not in must]
+    ompt = [f for f in openmpt_files() if os.path.getsize(f) < 300000]
     ck.rng.shuffle(rest)
-    return must + rest[:max(0, n - len(must))]
+    ck.rng.shuffle(ompt)
+    k = max(0, n - len(must))
+    return must + rest[:k // 2] + ompt[:k - k // 2]
 
 
 def split_cases(text):
@@ -399,7 +414,7 @@ def run(ck):
     ck.proofs(["XmpProps.C06"], required=REQUIRED, drivers=["drv_c06"])
 
     load_model_sets(ck)
-    mods = pick_modules(ck, 40 if quick else 140)
+    mods = pick_modules(ck, 56 if quick else 220)
     ck.note("modules", len(mods))
     ex_reset = build("c06_reset")
     ex_iso = build("c06_isolation")
